@@ -594,9 +594,13 @@ def _run_reject(res, selftest):
         for ip in (2, 4):
             cases.append(('ne16_latency', kind, {'k': (3, 3) if kind != 'linear' else (1, 1), 'wp': 8, 'ip': ip}, True))
         cases.append(('ne16_latency', kind, {'k': (3, 3) if kind != 'linear' else (1, 1), 'wp': 8, 'ip': 8}, False))
-    cases.append(('ne16_latency', 'conv2d', {'k': (5, 5), 'wp': 8, 'ip': 8}, True))
-    cases.append(('ne16_latency', 'conv2d', {'k': (3, 1), 'wp': 8, 'ip': 8}, True))
-    cases.append(('ne16_latency', 'conv2d_dw', {'k': (1, 1), 'wp': 8, 'ip': 8}, True))
+    # every kernel of the grid {1,3,5,7}^2 the accelerator does not execute (non-square ones included)
+    for k0 in (1, 3, 5, 7):
+        for k1 in (1, 3, 5, 7):
+            if (k0, k1) not in ((1, 1), (3, 3)):
+                cases.append(('ne16_latency', 'conv2d', {'k': (k0, k1), 'wp': 8, 'ip': 8}, True))
+            if (k0, k1) != (3, 3):
+                cases.append(('ne16_latency', 'conv2d_dw', {'k': (k0, k1), 'wp': 8, 'ip': 8}, True))
     for kind in KINDS['diana_latency']:
         for wp in (0, 2, 4, 8):
             for ap in (0, 2, 4, 8):
